@@ -339,6 +339,14 @@ Example C11_unlock_record_without_registration_nonvacuous :
   exists l, aget (store (a_db st)) 1 = Some l /\ reg_find_req (a_reg st) (c_req (l_cmd l)) = None.
 Proof. vm_compute. eexists. split; reflexivity. Qed.
 
+(* every index in the table was issued (is below the next index): every run, no hypothesis *)
+Theorem C11_registration_indices_issued : forall t0 aoft cfg acts, idx_ok (fst (arun (init_astate t0 aoft cfg) acts)).
+Proof. intros. apply arun_idx. apply idx_ok_init. Qed.
+Goal True. idtac "ASSUMPTIONS-OF C11_registration_indices_issued". Abort.
+Print Assumptions C11_registration_indices_issued.
+Example C11_registration_indices_issued_nonvacuous : a_reg ex_pending = [(0, (1, 1))] /\ a_next ex_pending = 1.
+Proof. vm_compute. split; reflexivity. Qed.
+
 (* the UNLOCK record of a registered lock (written by the ack timeout, an expiry, an unlock or a roll-back) -- in any
    state whose table holds issued indices only (`idx_ok`: every reachable state, C11_registration_indices_issued):
    the registration made under the RequestId of the lock's command is dropped, DoAckLock(lock, false) runs on the
@@ -360,15 +368,9 @@ Example C11_unlock_record_drops_registration_nonvacuous :
   idx_ok ex_pending /\ (exists l, aget (store (a_db ex_pending)) 1 = Some l /\ c_req (l_cmd l) = 1)
   /\ reg_find_req (a_reg ex_pending) 1 = Some (0, 1).
 Proof.
-  split; [intros e [<-|[]]; vm_compute; reflexivity|]. split; [vm_compute; eexists; split; reflexivity|vm_compute; reflexivity].
+  split; [exact (C11_registration_indices_issued 1000000 1 1 [AAct (AReq 1 (ex_lock 1 101))])|].
+  split; [vm_compute; eexists; split; reflexivity|vm_compute; reflexivity].
 Qed.
-
-Theorem C11_registration_indices_issued : forall t0 aoft cfg acts, idx_ok (fst (arun (init_astate t0 aoft cfg) acts)).
-Proof. intros. apply arun_idx. apply idx_ok_init. Qed.
-Goal True. idtac "ASSUMPTIONS-OF C11_registration_indices_issued". Abort.
-Print Assumptions C11_registration_indices_issued.
-Example C11_registration_indices_issued_nonvacuous : a_reg ex_pending = [(0, (1, 1))] /\ a_next ex_pending = 1.
-Proof. vm_compute. split; reflexivity. Qed.
 
 (* the whole interleaving "acknowledgement delayed and pre-empted by the ack timeout": ack-lock request 1 is granted,
    registered (index 0) and never acknowledged; its wait times out (TIMEOUT, hold rolled back; the UNLOCK record drops
